@@ -186,7 +186,12 @@ Inductive op :=
 | ODump            (** GET /dump *)
 | OWait (s : Z)    (** s seconds pass *)
 | OGc              (** the backend's sweep *)
-| OEvict (k : N).  (** the size-bounded map drops an entry *)
+| OEvict (k : N)   (** the size-bounded map drops an entry *)
+| OExecR (k : N) (bg : option msg).
+  (** Cache.Exec for question k where the rest of the chain leaves the context
+      alone; if the hit is stale, the background refresh (doLazyUpdate) is
+      answered with [bg] (or gets no reply) and has finished before the next
+      operation *)
 
 Inductive obs :=
 | BExec (served : option (list rr)) (lazy_hit : bool)
@@ -218,6 +223,17 @@ Definition dump_of (now : Z) (st : store) (keys : list N) : list (N * (Z * Z * Z
     | None => []
     end) keys.
 
+(** Both callers of saveRespToCache (Exec and the refresh in doLazyUpdate):
+    the reply, if there is one, goes through [save] and pkg/cache Store. *)
+Definition apply_reply (resp : option msg) (lazy_ttl now : Z) (k : N) (st : store) : store :=
+  match resp with
+  | Some m => match save m lazy_ttl now with
+              | Some e => if store_ignored now (e_cache_exp e) then st else st_set k e st
+              | None => st
+              end
+  | None => st
+  end.
+
 (** [drop = true] is the code; [drop = false] is the reference in which
     nothing is ever removed from the map (see Proofs: the two cannot be told
     apart by look-ups). *)
@@ -237,13 +253,7 @@ Definition step_gen (drop : bool) (secs : Z -> Z) (lazy_ttl : Z) (c : cstate) (o
                | None => st
                end in
     let r := get_resp_with secs (lazy_enabled lazy_ttl) now now en in
-    let st2 := match resp with
-               | Some m => match save m lazy_ttl now with
-                           | Some e => if store_ignored now (e_cache_exp e) then st1 else st_set k e st1
-                           | None => st1
-                           end
-               | None => st1
-               end in
+    let st2 := apply_reply resp lazy_ttl now k st1 in
     (CState now st2 (ins_key k keys),
      match r with
      | Some (m, lz) => BExec (Some (m_rrs m)) lz
@@ -253,6 +263,21 @@ Definition step_gen (drop : bool) (secs : Z -> Z) (lazy_ttl : Z) (c : cstate) (o
   | OWait s => (CState (now + Z.max 0 s * second) st keys, BNone)
   | OGc => (CState now (if drop then st_gc now st else st) keys, BNone)
   | OEvict k => (CState now (if drop then st_del k st else st) keys, BNone)
+  | OExecR k bg =>
+    let en := st k in
+    let st1 := match en with
+               | Some e => if drop && get_hidden now (e_cache_exp e) then st_del k st else st
+               | None => st
+               end in
+    let r := get_resp_with secs (lazy_enabled lazy_ttl) now now en in
+    let stale := match r with Some (_, lz) => lz | None => false end in
+    (* only a stale hit starts the refresh; its reply is stored by the same function *)
+    let st2 := if stale then apply_reply bg lazy_ttl now k st1 else st1 in
+    (CState now st2 (ins_key k keys),
+     match r with
+     | Some (m, lz) => BExec (Some (m_rrs m)) lz
+     | None => BExec None false
+     end)
   end.
 Definition step_with := step_gen true.
 
